@@ -77,6 +77,8 @@ class _SafeVisitor(ast.NodeVisitor):
             or node.func.id not in self._ALLOWED_FUNCS
         ):
             raise ExpressionError("Only simple calls to abs/min/max/round are allowed.")
+        if node.keywords:
+            raise ExpressionError("Keyword arguments are not allowed in expressions.")
         for arg in node.args:
             self.visit(arg)
 
